@@ -120,7 +120,9 @@ impl Resolver<'_> {
                     // Expression has no id - this happens with bare lambdas like `x -> y`
                     let found_desc = match &found.kind {
                         ExprKind::Func(_) => "a function".to_string(),
-                        kind => format!("{kind:?}"),
+                        // (the name of the kind only: the Debug text of an expression contains
+                        // hash maps, whose order differs from run to run)
+                        kind => kind.as_ref().to_string(),
                     };
                     return Err(Error::new(Reason::Expected {
                         who: None,
